@@ -331,10 +331,10 @@ func genNewick(r *core.Rng, sz Size) Doc {
 	case Multi:
 		depth = 2
 	case Medium:
-		n = r.Range(150, 400)
+		n = r.Range(50, 120)
 		depth = 5
 	case Large:
-		n = r.Range(3000, 8000)
+		n = r.Range(1000, 2400)
 		depth = 5
 	}
 	var line []byte
